@@ -35,10 +35,13 @@ def xcheck(tier, seed):
     from pyvc import xcheck as xc
 
     r = xc.run(seed, 120 if tier == "quick" else 3000)
-    out = {"summary": f"executor cross-check: {r['cases']} concrete executions of 5 real functions, pyvc interpreter vs CPython, mismatches={len(r['mismatches'])}", "violations": [], "undecided": [], "evaluations": r["cases"]}
+    out = {"summary": f"executor cross-check: {r['cases']} concrete executions of {len(r['per_function'])} real functions, pyvc interpreter vs CPython, mismatches={len(r['mismatches'])}, outside the subset={sum(r.get('outside_the_subset', {}).values())}", "violations": [], "undecided": [], "evaluations": r["cases"]}
     out["bounded"] = {"checker": "pyvc/xcheck.py", "what": "pyvc interpreter (concrete mode) agrees with CPython", "cases": r["cases"], "label": "bounded, validates the engine, not the property"}
     if r["mismatches"]:
         out["undecided"].append("ENGINE MISMATCH (checker bug): " + repr(r["mismatches"][0]))
+    for fn, n in r.get("outside_the_subset", {}).items():
+        if n == r["per_function"].get(fn):
+            out["undecided"].append(f"executor cross-check: {fn} no longer executes in the interpreter ({r['why'].get(fn)})")
     return out
 
 
@@ -58,6 +61,12 @@ def c19_rt(tier, seed):
     from pyvc.rtcheck import run_rt
 
     return run_rt("c19_rt.py", "rt:c19", tier, seed, 20000, 1000000)
+
+
+def c01_rt(tier, seed):
+    from pyvc.rtcheck import run_rt
+
+    return run_rt("c01_rt.py", "rt:c01", tier, seed, 300, 5000)
 
 
 def c07_rt(tier, seed):
@@ -230,7 +239,7 @@ PROPS = {
     },
     "C01": {
         "modules": ["contracts.c01_transfer", "contracts.worker_units", "contracts.c15_throttle", "contracts.server_units"],
-        "extra": ["contracts.index.c18_rt"],
+        "extra": ["contracts.index.c18_rt", "contracts.index.c01_rt"],
         "unit_filter": ["AsyncStreamIterator.__anext__", "retr_worker@retr", "stor_worker@stor", "stor_worker@appe", "ThrottleStreamIO.read", "ThrottleStreamIO.write", "Server.rest#SEQ", "Server.appe#SEQ", "Server.stor#SEQ", "Client.get_stream", "DataConnectionThrottleStreamIO.__aexit__", "Client.upload/copy-loop", "Client.upload/file-branch", "Client.download/file-branch", "Client.get_passive_connection"],
         "level": "proof",
         "trusted_base": [T_PY, T_ENGINE, T_SOLVER, T_AIO, T_CONN, "abstract backend file (assumed contract): sequential access after an optional seek; 'wb' truncates, 'ab' appends whatever was seeked, 'r+b' keeps the content; a write at position p pads with zeros beyond the end (pyvc/backend.py:FileHandle)"],
@@ -241,7 +250,7 @@ PROPS = {
         "not_decided": [
             "kernel/TCP delivering what was written (T-aio)",
             "'every later download, stat or listing reflects the new content' beyond 'file and data stream closed before the completion reply' (backend visibility)",
-            "parse_epsv_response / parse_pasv_response are used through stand-ins in Client.get_passive_connection's unit (their exception sets are C19 units; that they decode what the server's PASV/EPSV handlers encode is not a stated obligation)",
+            "parse_epsv_response / parse_pasv_response are used through stand-ins in Client.get_passive_connection's unit; that they decode what the server's PASV/EPSV handlers encode is decided by rt/c01_rt.py for EVERY port 0..65535 (exhaustive in the port, sampled in the host) on the real handlers, real write_response and real parse_response — run-time, labelled bounded",
             "that MemoryPathIO / Python file objects satisfy the abstract file contract (see C18)",
         ],
         "explanation": "",
@@ -261,7 +270,7 @@ PROPS = {
         "explanation": "",
     },
     "C09": {
-        "modules": ["contracts.c09_client", "contracts.c01_transfer"],
+        "modules": ["contracts.c09_client", "contracts.c01_transfer", "contracts.c09_walk"],
         "unit_filter_prefix": ["Client."],
         "extra": ["contracts.index.c09_rt"],
         "level": "proof",
